@@ -10,6 +10,7 @@
 import ALV.Lemmas.C11Order2
 import ALV.Lemmas.C11Lev
 import ALV.Lemmas.C11Poles
+import ALV.Lemmas.C11Converse
 import ALV.Common.Audit
 
 set_option linter.unusedSectionVars false
@@ -183,8 +184,8 @@ theorem stableCoded_poles_inside (den t : List ℝ) (hs : stripZeros den = 1 :: 
   rw [stableCoded_eq_spec den t hs] at h
   exact schur_cohn_sufficient den t 1 one_ne_zero hs h
 
-/-- **C11.5b** order 1, both directions -/
-theorem schur_cohn_order1_partial (a0 a1 : ℝ) (h0 : a0 ≠ 0) (h1 : a1 ≠ 0) :
+/-- **C11.5b** order 1, both directions (explicit root) -/
+theorem schur_cohn_order1 (a0 a1 : ℝ) (h0 : a0 ≠ 0) (h1 : a1 ≠ 0) :
     parcorStableSpec [a0, a1] = true ↔
       ∀ z : ℂ, evalC [a0, a1].reverse z = 0 → Complex.normSq z < 1 := by
   constructor
@@ -192,20 +193,33 @@ theorem schur_cohn_order1_partial (a0 a1 : ℝ) (h0 : a0 ≠ 0) (h1 : a1 ≠ 0) 
   · intro h; exact order1_converse a0 a1 h0 h1 (by simpa using h)
 
 /-- **C11.5c** order 2, both directions (real double roots, distinct real roots, conjugate pairs) -/
-theorem schur_cohn_order2_partial (a0 a1 a2 : ℝ) (h0 : a0 ≠ 0) (h2 : a2 ≠ 0) :
+theorem schur_cohn_order2 (a0 a1 a2 : ℝ) (h0 : a0 ≠ 0) (h2 : a2 ≠ 0) :
     parcorStableSpec [a0, a1, a2] = true ↔
       ∀ z : ℂ, evalC [a0, a1, a2].reverse z = 0 → Complex.normSq z < 1 := by
   constructor
   · exact schur_cohn_sufficient [a0, a1, a2] [a1, a2] a0 h0 (by simp [stripZeros, h2])
   · intro h; exact order2_converse a0 a1 a2 h0 h2 (by simpa using h)
 
--- PENDING: the converse for order ≥ 3 (all poles inside ⇒ all |k| < 1).  It needs either Rouché's
--- theorem or the factorisation of the Blaschke quotient over the roots; Mathlib v4.33 has no
--- Rouché / Schur–Cohn.  The tie checks it on every generated pole set (Lean verdict vs the
--- construction).  Full statement:
-def SchurCohnFull : Prop :=
-  ∀ (den t : List ℝ) (g : ℝ), g ≠ 0 → stripZeros den = g :: t →
-    (parcorStableSpec den = true ↔ ∀ z : ℂ, evalC den.reverse z = 0 → Complex.normSq z < 1)
+/-- **C11.5 Schur–Cohn, both directions, EVERY order**: for a denominator with non-zero leading
+coefficient, the verdict of the specification is `true` exactly when every pole (root of
+`Σ den_i z^(n-i)`, complex) lies strictly inside the unit circle.  Necessity is proved without
+Rouché: factorisation over ℂ, one Blaschke factor at a time (`Lemmas/C11Converse.lean`). -/
+theorem schur_cohn (den t : List ℝ) (g : ℝ) (hg : g ≠ 0) (hs : stripZeros den = g :: t) :
+    parcorStableSpec den = true ↔ ∀ z : ℂ, evalC den.reverse z = 0 → Complex.normSq z < 1 :=
+  ⟨schur_cohn_sufficient den t g hg hs, poles_inside_stableSpec den t g hg hs⟩
+
+/-- the repaired `parcor_stable` decides stability, every order, any non-zero leading coefficient -/
+theorem stableFixed_iff_poles_inside (den t : List ℝ) (g : ℝ) (hg : g ≠ 0)
+    (hs : stripZeros den = g :: t) :
+    parcorStableFixed den = true ↔ ∀ z : ℂ, evalC den.reverse z = 0 → Complex.normSq z < 1 := by
+  rw [stableFixed_eq_spec den t g hg hs]
+  exact schur_cohn den t g hg hs
+
+/-- `parcor_stable` as coded decides stability on denominators with leading coefficient 1 -/
+theorem stableCoded_iff_poles_inside (den t : List ℝ) (hs : stripZeros den = 1 :: t) :
+    parcorStableCoded den = true ↔ ∀ z : ℂ, evalC den.reverse z = 0 → Complex.normSq z < 1 := by
+  rw [stableCoded_eq_spec den t hs]
+  exact schur_cohn den t 1 one_ne_zero hs
 
 /-- **C11.5d** "critical and unstable filters give False", every order: a denominator built with a
 prescribed real pole or conjugate pair on or outside the unit circle gets the verdict `false`,
@@ -223,10 +237,14 @@ theorem unstable_gives_false_fixed (g : ℝ) (hg : g ≠ 0) (reals : List ℝ) (
   rw [stableFixed_eq_spec _ t' g hg ht']
   exact fromPoles_unstable g hg reals pairs h
 
--- PENDING (the other half for the constructed family; consequence of `SchurCohnFull`):
-def FromPolesStable : Prop :=
-  ∀ (g : ℝ) (reals : List ℝ) (pairs : List (ℝ × ℝ)), g ≠ 0 →
-    polesInside reals pairs = true → parcorStableSpec (fromPoles g reals pairs) = true
+/-- **C11.5e** the constructed family (the inputs of the tie): the verdict IS the construction —
+`true` iff every prescribed real pole and conjugate pair is strictly inside the unit circle;
+every order, any non-zero gain. -/
+theorem stable_eq_construction (g : ℝ) (hg : g ≠ 0) (reals : List ℝ) (pairs : List (ℝ × ℝ)) :
+    parcorStableSpec (fromPoles g reals pairs) = polesInside reals pairs := by
+  cases h : polesInside reals pairs with
+  | true => exact fromPoles_stable g hg reals pairs h
+  | false => exact fromPoles_unstable g hg reals pairs h
 
 /-! ### 6. `levinson_durbin` as coded: reflection coefficients and prediction error -/
 
@@ -293,7 +311,7 @@ example : levinson ([12, 6, 0, -3] : List Rat) 3 = some ([1, -5/8, 1/4, 1/8], 63
 example : (12 : Rat) * (([-1/2, 1/3, 1/8] : List Rat).map (fun k => 1 - k * k)).prod = 63/8 := by
   decide +kernel
 example : parcorStableSpec ([2, -1] : List ℝ) = true :=
-  (schur_cohn_order1_partial 2 (-1) (by norm_num) (by norm_num)).mpr (by
+  (schur_cohn_order1 2 (-1) (by norm_num) (by norm_num)).mpr (by
     intro z hz
     have : z = ((1 / 2 : ℝ) : ℂ) := by
       simp only [List.reverse_cons, List.reverse_nil, List.nil_append, List.cons_append,
